@@ -722,7 +722,7 @@ fn build_v(db: &Arc<LocustDB>) {
 fn build_dbs() -> Dbs { Dbs { main: build_main(), fresh: Arc::new(LocustDB::new(&options())) } }
 
 #[derive(Clone)]
-struct Cat { exists: bool, meta: String, parts: usize, rows: usize, columns: Vec<String> }
+struct Cat { exists: bool, meta: String, parts: usize, rows: usize, columns: Vec<String>, divergent: Vec<String> }
 
 fn column_names(db: &Arc<LocustDB>, table: &str) -> Option<Vec<String>> {
     match query_full(db, &format!("SELECT column_name FROM \"_meta_columns_{}\"", table), false, 30) {
@@ -748,7 +748,20 @@ fn catalog(db: &Arc<LocustDB>, table: &str) -> Cat {
         for p in parts { for h in p.clone_column_handles() { if !h.is_empty() && !columns.iter().any(|c| c == h.name()) { columns.push(h.name().to_string()); } } }
     }
     columns.sort();
-    Cat { exists: snap.is_some(), meta, parts: snap.as_ref().map(|p| p.len()).unwrap_or(0), rows: snap.as_ref().map(|p| p.iter().map(|x| x.len()).sum()).unwrap_or(0), columns }
+    // columns whose basic type is numeric (integer / float) in one partition and string in another: merging ORDERED partial
+    // results of such a column needs least_upper_bound({I64,F64}, {Str,OptStr}), which is unimplemented (open finding
+    // orderby-type-divergent-column-panic); whether it is asked for depends on the order in which the partitions are merged
+    let mut divergent: Vec<String> = vec![];
+    if let Some(parts) = &snap {
+        for name in &columns {
+            let (mut num, mut text) = (false, false);
+            for p in parts { for h in p.clone_column_handles() { if h.name() == name { if let Some(c) = h.try_get().clone() {
+                match format!("{:?}", c.basic_type()).as_str() { "Integer" | "NullableInteger" | "Float" | "NullableFloat" => num = true, "String" | "NullableString" => text = true, _ => {} }
+            } } } }
+            if num && text { divergent.push(name.clone()); }
+        }
+    }
+    Cat { exists: snap.is_some(), divergent, meta, parts: snap.as_ref().map(|p| p.len()).unwrap_or(0), rows: snap.as_ref().map(|p| p.iter().map(|x| x.len()).sum()).unwrap_or(0), columns }
 }
 
 fn out_len(cols: &[(String, Vec<Cell>)], rows: &Option<Vec<Vec<Cell>>>) -> usize {
@@ -1105,7 +1118,7 @@ fn main() {
             let (obs, canon) = observe(&out);
             let kind = match &out { QOut::Ok { .. } => "ok".to_string(), o => o.tok() };
             let tclass = if !cat.exists { "missing-table" } else if cat.parts == 0 { "no-partitions" } else { "table" };
-            let line = format!("run {} {} {} {} {} {} {} ## {}", cat.exists as u8, cat.meta, cat.parts, cat.rows, toks(&cat.columns, |n| hexs(n)), rowformat as u8, ast, obs);
+            let line = format!("run {} {} {} {} {} {} d{} {} ## {}", cat.exists as u8, cat.meta, cat.parts, cat.rows, toks(&cat.columns, |n| hexs(n)), rowformat as u8, toks(&cat.divergent, |n| hexs(n)), ast, obs);
             cases.push(&format!("run:{}:{}:{}:{}", which, tclass, class, kind), &line, &canon, &format!("{} | {}", sql, out.detail()));
             if !healthy(&out) { broken = true; }
         }
@@ -1130,7 +1143,7 @@ fn main() {
             };
             let (obs, canon) = observe(&out);
             let kind = match &out { QOut::Ok { .. } => "ok".to_string(), o => o.tok() };
-            let line = format!("run {} {} {} {} {} {} {} ## {}", cat.exists as u8, cat.meta, cat.parts, cat.rows, toks(&cat.columns, |n| hexs(n)), 1, p.toks(), obs);
+            let line = format!("run {} {} {} {} {} {} d{} {} ## {}", cat.exists as u8, cat.meta, cat.parts, cat.rows, toks(&cat.columns, |n| hexs(n)), 1, toks(&cat.divergent, |n| hexs(n)), p.toks(), obs);
             cases.push(&format!("run:main:table:{}:{}", class, kind), &line, &canon, &format!("{} | {}", sql, out.detail()));
             if !healthy(&out) { dbs = build_dbs(); }
         }
